@@ -29,7 +29,8 @@ RULE = ("trees: random task trees of depth <= 3 and fan-out <= 3 (<= 40 tasks), 
         "try-except / try-finally / `if c: return K` (c false and c true) / a nested with; both recurse_child_tasks values; "
         "thorough adds a systematic family (context layouts x end shapes x block modes x child counts). chains: every valid "
         "hop string over T (to_thread.run_sync), H (from_thread.run re-entering the host task), S (from_thread.run with "
-        "trio_token, system task) up to length M (quick 5, thorough 8) from a task or a foreign thread, parked and observed from "
+        "trio_token, system task), R (from_thread.run_sync as the last hop, the sync function calling extract from inside the "
+        "host task) up to length M (quick 5, thorough 8) from a task or a foreign thread, parked and observed from "
         "outside, or observed from inside the innermost task, or parked before the worker thread exists; each hop string also "
         "with ONE sync and ONE async function at every level (equal worker-thread names); nurseries with a child "
         "in the task segments. distinct = distinct descriptors; non-trivial = model result has a nursery child or frames that "
@@ -49,8 +50,12 @@ CONFIG = dict(
                  "with Trio's tables; in the runs this is what is being observed",
                  "the program is parked while it is observed (trio.testing.wait_all_tasks_blocked, worker threads blocked in C)",
                  "CPython 3.12 + trio 0.34 only"],
-    unproved_legs=["a to_thread.run_sync frame that is the last entry of an inserted segment while an enclosing segment "
-                   "continues sees next_inner=None in the model (not reachable: such a frame always has an awaitee/callee)"],
+    unproved_legs=["C14_lookahead_irrelevant shows that the model's lookahead approximation (a to_thread.run_sync frame ending "
+                   "its segment sees next_inner=None) cannot change the frames on well-typed ping-pong worlds; on ill-typed "
+                   "worlds (never produced by Trio) the model is not claimed to follow the code",
+                   "trio.from_thread.run_sync needs no rule of its own (the glue registers nothing for it: its frame and "
+                   "_send_message_to_trio are plain thread frames before the host's frames); covered by generated chains "
+                   "ending in R and by C14_hops_n (thread segment without from_thread.run), not by a separate theorem"],
     NOTES=("DESIGN deviation: the analysis oracle is not a Section function variable (that would break structural recursion "
            "of the model); the Section variables are Trio's tables nurs_of/kids_of and exactness is the hypothesis that the "
            "contexts attached to the frames agree with them. Hops are modelled on a dedicated queue-with-depths walk instead "
@@ -158,6 +163,7 @@ def hop_strings(start, maxlen):
         else:
             if not (start == "thread" and len(s) == 0):
                 go(s + "H", True)
+                out.append(s + "R")       # from_thread.run_sync: only as the last hop, observed from inside
             go(s + "S", True)
 
     go("", start == "task")
@@ -171,7 +177,7 @@ def seg_tasks(start, hops):
     for i, h in enumerate(hops):
         if h == "T":
             owner.append(None)
-        elif h == "H":
+        elif h in "HR":
             owner.append(owner[i - 1])
         else:
             owner.append(nxt)
@@ -195,13 +201,15 @@ def chains(rng, maxlen, per):
         for hops in hop_strings(start, maxlen):
             in_task = (start == "task") == (len(hops) % 2 == 0)
             ends = ["park", "inside", "limiter"] if in_task else ["park"]
+            if hops.endswith("R"):
+                ends = ["inside"]
             for end in ends:
                 for v in range(per):
                     n = len(hops) + 1
                     d = {"kind": "chain", "rc": (v % 3 != 2), "start": start, "hops": hops, "end": end,
                          "nurs": [int(rng.random() < 0.6) for _ in range(n)] if v else [1] * n,
                          "deep": [int(rng.random() < 0.4) for _ in range(n)] if v else [0] * n}
-                    if v == 1:
+                    if v == 1 and not hops.endswith("R"):
                         # one sync and one async function at every level (equal worker-thread names)
                         d.update(shared=True, nurs=[0] * n, deep=[0] * n)
                     if f14(start, hops):
